@@ -162,3 +162,28 @@ def read_amplitude(text, lang):
     lss = [{"kind": m.group(1), "res": m.group(2), "L": int(m.group(4)), "mass": m.group(5)} for m in ls_re.finditer(text)]
     n = n_re.search(text)
     return sfs, lss, int(n.group(1)) if n else -1
+
+
+def read_options(cls, text, form):
+    """hand an options text to a reader class as `text=` (form 0), as a file named by a str (1) or by a pathlib.Path given
+    by position (2)"""
+    if form == 0:
+        return cls.read_ampgen(text=text)
+    import tempfile
+    from pathlib import Path
+    from .tlc import WORK
+    WORK.mkdir(exist_ok=True)
+    with tempfile.TemporaryDirectory(prefix="optf-", dir=str(WORK)) as d:
+        fp = Path(d) / "options.txt"
+        fp.write_text(text, encoding="utf_8")
+        return cls.read_ampgen(filename=str(fp)) if form == 1 else cls.read_ampgen(fp)
+
+
+def with_remarks(lines, rng):
+    """trailing remarks on some lines, whole-line comments and blank lines between them (the grammar ignores all of these)"""
+    out = []
+    for ln in lines:
+        if rng.random() < 0.2:
+            out.append(rng.choice(["", "# a comment", "   ", "#D0{K-,pi+} 0 1 0 0 1 0"]))
+        out.append(ln + rng.choice(["", "", "  ", "  # fixed", "\t# see note 3"]))
+    return out
